@@ -1,6 +1,8 @@
 """C16 -- honeywords are drawn from the grammar with the grammar's probabilities."""
 import z3
-from pyvc.runner import Prop, Bounded, script_replay, Lemma
+from pyvc.runner import Prop, Bounded, script_replay
+from pyvc import effects
+from pyvc.runner import Lemma
 import contracts.guesser_core as gc
 import contracts.guesser_expand as ge
 import contracts.guesser_honey as gh
@@ -26,6 +28,7 @@ PROP = Prop(
                gh.HS + '.__init__', gh.HS + '.run'],
     lemmas=lemmas,
     setup=gh.install,
+    effects=effects.state_frame_for('C16', ['lib_guesser/pcfg_grammar.py', 'lib_guesser/honeyword_session.py']),
     level='other',
     replay=script_replay('replay/honey.py', default_fn='ALL'),
     bounded=[Bounded('C16.bounded.sweep', 'replay/honey.py', args=['--fn', 'ALL'],
